@@ -346,6 +346,45 @@ fn ne_u16(b: &[u8; 4096], at: usize) -> u16 {
     u16::from_ne_bytes([b[at], b[at + 1]])
 }
 
+/// `format!` on error paths is irrelevant to the contracts below and dominates CBMC's cost
+fn stub_format(_args: std::fmt::Arguments<'_>) -> String {
+    String::new()
+}
+
+/// `wipe` alone: whatever file was there (absent, or up to 96 arbitrary bytes), the re-created file
+/// is exactly the documented 72 bytes: magic, declared size 72, version 0, generation 0, zero record.
+#[kani::proof]
+#[kani::unwind(12)]
+#[kani::stub(std::fs::create_dir_all, stub_create_dir_all)]
+#[kani::stub(std::fmt::format, stub_format)]
+fn c16_wipe_lays_out_72_bytes() {
+    use fsmodel::*;
+    let exists: bool = kani::any();
+    let len: usize = kani::any();
+    kani::assume(len <= 96);
+    let old: [u8; 96] = kani::any();
+    unsafe {
+        fs_exists = exists as i32;
+        fs_file_len = if exists { len as u64 } else { 0 };
+        // bytes beyond the end of the file are whatever was there: arbitrary too
+        std::ptr::copy_nonoverlapping(old.as_ptr(), std::ptr::addr_of_mut!(fs_file).cast::<u8>(), 96);
+    }
+    let r = ShmWriter::wipe(Path::new("/p"), ShmWriter::segment_size());
+    kani::assert(r.is_ok(), "C16.wipe.succeeds_whatever_the_file_contained");
+    unsafe {
+        kani::assert(fs_exists == 1 && fs_file_len == 72, "C16.wipe.file_is_exactly_72_bytes");
+        kani::assert(ne_u32(&fs_file, 0) == 0x414D5A4E && ne_u32(&fs_file, 4) == 0x43420200, "C16.wipe.magic_first");
+        kani::assert(ne_u32(&fs_file, 8) == 72, "C16.wipe.declared_size_72");
+        kani::assert(ne_u16(&fs_file, 12) == 0 && ne_u16(&fs_file, 14) == 0, "C16.wipe.version_0_generation_0");
+        let rec: [u8; 56] = std::ptr::read(std::ptr::addr_of!(fs_file).cast::<u8>().add(16).cast());
+        kani::assert(rec == [0u8; 56], "C16.wipe.record_is_zero");
+        kani::assert(fs_open_fds == 0 && fs_bad_arg == 0, "C16.wipe.descriptor_closed");
+        kani::assert(fs_fsyncs >= 1, "C16.wipe.synced_to_disk");
+    }
+    kani::cover!(exists && len > 72, "C16.cover.wipe_longer_file");
+    kani::cover!(!exists, "C16.cover.wipe_missing_file");
+}
+
 #[kani::proof]
 #[kani::unwind(130)]
 #[kani::stub(std::fs::create_dir_all, stub_create_dir_all)]
